@@ -34,7 +34,8 @@ def fx_name(rel):
 def body(rel, extra_import=None):
     n = fx_name(rel)
     imp = (extra_import + "\n") if extra_import else ""
-    return f"{imp}import pytest\n\n@pytest.fixture\ndef {n}():\n    return 1\n\ndef test_uses_{n}({n}):\n    pass\n"
+    return (f"{imp}import pytest\n\n@pytest.fixture\ndef {n}():\n    return 1\n\ndef _impl_{n}():\n    return 2\n\n"
+            f"asg_{n} = pytest.fixture()(_impl_{n})\n\ndef test_uses_{n}({n}, asg_{n}):\n    pass\n")
 
 
 def gen_tree(rng):
@@ -71,6 +72,13 @@ def gen_tree(rng):
             r_ = os.path.join(d, n_ + ".py") if d else n_ + ".py"
             files[r_] = body(r_)
         helper_mods.append((cf, m1, m2, os.path.join(d, "helper_badbytes.py") if bad else None))
+        parts_ = d.split("/") if d else []
+        if len(parts_) >= 2 and rng.random() < 0.7:
+            # a module two packages up, reached with three leading dots
+            up = "/".join(parts_[:-2])
+            um = os.path.join(up, "helper_two_up.py") if up else "helper_two_up.py"
+            files[um] = body(um)
+            files[cf] = "from ...helper_two_up import *\n" + files[cf]
     # excludes (forms whose meaning is unambiguous for root-relative paths)
     excludes = []
     tops = sorted({r.split("/")[0] for r in files if "/" in r})
@@ -146,8 +154,11 @@ def expected_indexed(files, excludes, broken):
             t = files[rel]
             if isinstance(t, bytes):
                 continue
-            for m in re.findall(r"^from \.(\w+) import \*", t, re.M):
-                cand = os.path.join(os.path.dirname(rel), m + ".py")
+            for dots, m in re.findall(r"^from (\.+)(\w+) import \*", t, re.M):
+                base_ = os.path.dirname(rel)
+                for _ in range(len(dots) - 1):
+                    base_ = os.path.dirname(base_)
+                cand = os.path.join(base_, m + ".py")
                 if cand in files and cand not in exp and cand not in broken:
                     exp.add(cand)
                     changed = True
